@@ -191,6 +191,15 @@ def run(res):
             if n1 < 2 ** 32 and d1 <= 10 ** 9 and k1 < 2 ** 63 and k1 * d1 // n1 < Y9999:
                 chain.append((k1, n1, d1))
         chain.append(chain[0])
+        # every third chain starts after a conversion the library refuses (a time no calendar date expresses): what a
+        # refused call leaves behind (errno, a half-filled struct) must not show in the calls that follow
+        refused = []
+        if _ % 3 == 0:
+            refused = [rng.choice([(2 ** 64 - 1, 200, 3), (2 ** 64 - 1, 1, 10 ** 9), (2 ** 63 + 5, 1, 7)])]
+            try:
+                digital_rf.get_unix_time(*refused[0])
+            except Exception:  # noqa
+                res.count("chain-after-a-refused-conversion")
         for j, (k1, n1, d1) in enumerate(chain):
             sec, ps = k1 * d1 // n1, ((k1 * d1) % n1) * PS // n1
             spec = [0] + civil(sec) + [ps]
@@ -205,7 +214,7 @@ def run(res):
             if impl != spec:
                 res.violation("unix-time-depends-on-earlier-calls" if j else "unix-time",
                               "get_unix_time differs from calendar of floor(k*d/n) / floor picoseconds after a sequence of calls",
-                              {"fn": "unix", "k": k1, "n": n1, "d": d1, "history": [list(c) for c in chain[:j]]}, spec, impl)
+                              {"fn": "unix", "k": k1, "n": n1, "d": d1, "history": [list(c) for c in refused + chain[:j]]}, spec, impl)
                 break
             if [rc, s_out.value, p_out.value] != [0, sec, ps]:
                 res.violation("floor-depends-on-earlier-calls" if j else "floor-not-exact",
@@ -325,15 +334,21 @@ def replay(res, rp):
         return 1 if bad else 0
     if isinstance(i, dict) and i.get("fn") == "unix":
         for (k, n, dd) in i.get("history") or []:
-            digital_rf.get_unix_time(k, n, dd)
+            try:
+                digital_rf.get_unix_time(k, n, dd)
+            except Exception as e:  # noqa
+                pass                       # (no output here: a write to stdout resets errno)
         k, n, dd = i["k"], i["n"], i["d"]
         if i.get("index_type"):
             import numpy as np
             print("index passed as", i["index_type"])
             k = getattr(np, i["index_type"])(k)
-        dt, ips = digital_rf.get_unix_time(k, n, dd)
+        try:
+            dt, ips = digital_rf.get_unix_time(k, n, dd)
+            got = [0, dt.year, dt.month, dt.day, dt.hour, dt.minute, dt.second, ips]
+        except Exception as e:  # noqa
+            got = ["exc", repr(e)]
         k = int(k)
-        got = [0, dt.year, dt.month, dt.day, dt.hour, dt.minute, dt.second, ips]
         want = [0] + civil(k * dd // n) + [((k * dd) % n) * PS // n]
         print("get_unix_time(%d, %d, %d) after %d earlier calls -> %s; exact value %s" % (k, n, dd, len(i.get("history") or []), got, want))
         print("replay verdict:", "STILL VIOLATING" if got != want else "no longer violating")
